@@ -136,6 +136,12 @@ fn compatible(o: &ObsLeaf, e: &Leaf) -> bool {
     if fe != "*" && o.family != '?' && !fe.contains(o.family) {
         return false;
     }
+    // an enum takes exactly one item: that is the bound the count errors state, each its own
+    match e.kind {
+        LeafKind::TooFew if o.family == 'T' && o.kind_text != "Too few items: Expected at least 1" => return false,
+        LeafKind::TooMany if o.family == 'T' && o.kind_text != "Too many items: Expected no more than 1" => return false,
+        _ => {}
+    }
     if matches!(e.kind, LeafKind::Unknown | LeafKind::Duplicate | LeafKind::Missing) {
         if let Some(n) = &o.named {
             // (the message may or may not keep the `r#` of a raw identifier: spelling, not name)
